@@ -8,6 +8,23 @@ int vh_ops_crc(int argc, char **argv)
 	size_t *ks, nk, i, pos = 0;
 	uint16_t crc;
 
+	if (!strcmp(argv[0], "crca") && argc == 4) {
+		// crca <init hex> <bytes hex> <even offset>: the 16-bit accumulator LIES INSIDE the buffer being checksummed
+		// (a record whose CRC field is part of the checksummed bytes, summed in place): the bytes of the call are the
+		// buffer as it stands when the call is made, the accumulator's two bytes holding the start value
+		size_t off;
+		if (!vh_parse_hex(argv[2], &b)) return 0;
+		off = (size_t) vh_parse_hexnat(argv[3]);
+		if ((off & 1) || off + 2 > b.len) { free(b.data); return 0; }
+		{
+			uint16_t *acc = (uint16_t *) (b.data + off);
+			*acc = (uint16_t) vh_parse_hexnat(argv[1]);
+			lha_crc16_buf(acc, b.data, b.len);
+			vh_out("%04x", *acc);
+		}
+		free(b.data);
+		return 1;
+	}
 	if (strcmp(argv[0], "crc") || argc != 4) return 0;
 	crc = (uint16_t) vh_parse_hexnat(argv[1]);
 	if (!vh_parse_hex(argv[2], &b) || !vh_parse_nats(argv[3], &ks, &nk)) return 0;
